@@ -45,9 +45,10 @@ type Cfg struct {
 }
 
 type Ev struct {
-	T    int    `json:"t"`
-	Code string `json:"code"`
-	St   string `json:"st"`
+	T       int    `json:"t"`
+	Code    string `json:"code"`
+	St      string `json:"st"`
+	Foreign bool   `json:"foreign,omitempty"` // the event belongs to ANOTHER channel (recorded as code/status "Foreign")
 }
 
 type Out struct {
@@ -248,15 +249,21 @@ func (a *api) deliver(e Ev, inj bool) {
 	a.seq++
 	t := a.nowLocked()
 	idx := len(a.events)
-	a.events = append(a.events, ObsEv{T: t, Code: e.Code, St: e.St, Fin: finSt[e.St], Delivered: len(subs) > 0, Inj: inj, S0: a.seq})
+	chid := a.chid
+	rc, rs, fin := e.Code, e.St, finSt[e.St]
+	if e.Foreign {
+		chid.ID++
+		rc, rs, fin = "Foreign", "Foreign", false
+	}
+	a.events = append(a.events, ObsEv{T: t, Code: rc, St: rs, Fin: fin, Delivered: len(subs) > 0, Inj: inj, S0: a.seq})
 	d := "n"
 	if len(subs) > 0 {
 		d = "d"
 	}
-	a.mlog = append(a.mlog, MEntry{Call: "ev", T: t, Res: d, Code: e.Code, St: e.St})
+	a.mlog = append(a.mlog, MEntry{Call: "ev", T: t, Res: d, Code: rc, St: rs})
 	a.mu.Unlock()
 
-	state := &chState{MockChannelState: testutil.NewMockChannelState(testutil.MockChannelStateParams{ChannelID: a.chid}), st: st}
+	state := &chState{MockChannelState: testutil.NewMockChannelState(testutil.MockChannelStateParams{ChannelID: chid}), st: st}
 	for _, s := range subs {
 		s(datatransfer.Event{Code: code, Timestamp: time.Now()}, state)
 	}
@@ -285,8 +292,9 @@ var errScripted = errors.New("scripted failure")
 func (a *api) call(ctx context.Context, name string) error {
 	a.mu.Lock()
 	if a.probe {
+		// teardown: succeed, so that whatever loop is still running can come to an end
 		a.mu.Unlock()
-		return ctx.Err()
+		return nil
 	}
 	a.ncalls++
 	t := a.nowLocked()
@@ -318,11 +326,9 @@ func (a *api) call(ctx context.Context, name string) error {
 	res := e.Res
 	switch {
 	case runaway:
-		select {
-		case <-a.stop:
-		case <-ctx.Done():
-		}
-		err, res = errors.New("runaway"), "ctx"
+		// a loop that does not end at this virtual instant: park it until teardown (the case is marked), then succeed
+		<-a.stop
+		res = "ctx"
 	case dead:
 		err = ctx.Err()
 	default:
